@@ -215,3 +215,46 @@ Fixpoint nodup_alts (n : pnode) : bool :=
   end.
 
 Definition forest_nodup (F : forest) : bool := forallb nodup_alts F.
+
+(* ---- a local sufficient condition for "all represented trees are pairwise different" ---- *)
+
+Definition alt_span (a : alt) : N * N :=
+  match a with ATerm _ s e => (s, e) | ANT _ s e _ => (s, e) end.
+
+Definition span_eqb (x y : N * N) : bool := (fst x =? fst y) && (snd x =? snd y).
+
+(* span shared by all alternatives of node k (None if they differ or the node is empty) *)
+Definition node_span (n : pnode) : option (N * N) :=
+  match n with
+  | [] => None
+  | a :: r => if forallb (fun b => span_eqb (alt_span a) (alt_span b)) r then Some (alt_span a) else None
+  end.
+
+Definition spans_of (F : forest) : list (option (N * N)) := map node_span F.
+
+(* two alternatives certainly represent disjoint sets of trees *)
+Definition alt_differs (sp : list (option (N * N))) (a b : alt) : bool :=
+  match a, b with
+  | ATerm y s e, ATerm y' s' e' => negb ((y =? y') && (s =? s') && (e =? e'))
+  | ANT p s e cs, ANT p' s' e' cs' =>
+      negb ((p =? p') && (s =? s') && (e =? e')) ||
+      negb (Nat.eqb (length cs) (length cs')) ||
+      existsb (fun cc => match nth (fst cc) sp None, nth (snd cc) sp None with
+                         | Some x, Some y => negb (span_eqb x y)
+                         | _, _ => false
+                         end) (combine cs cs')
+  | _, _ => true
+  end.
+
+Fixpoint alts_separated (sp : list (option (N * N))) (n : pnode) : bool :=
+  match n with
+  | [] => true
+  | a :: r => forallb (alt_differs sp a) r && alts_separated sp r
+  end.
+
+(* every node referenced as a child has a uniform span; alternatives are separated *)
+Definition forest_distinct_ok (F : forest) : bool :=
+  let sp := spans_of F in
+  forallb (alts_separated sp) F &&
+  forallb (fun n => forallb (fun a => forallb (fun c => match nth c sp None with Some _ => true | None => false end)
+                                              (alt_children a)) n) F.
